@@ -291,6 +291,7 @@ func main() {
 				hexes []string
 			}
 			var since []batch
+			refAtPrep := map[string][]byte{}
 			for s := 0; s < steps && !dead; s++ {
 				nb := 1 + r.Intn(8)
 				cmds := [][]byte{}
@@ -320,10 +321,20 @@ func main() {
 					since = append(since, batch{idx, cmds, hexes})
 				}
 				idx += uint64(nb)
-				if pm, ok := ms[0].(preparer); ok {
+				pm, isPrep := ms[0].(preparer)
+				{
 					if prepCtx == nil && r.Intn(5) == 0 {
-						prepCtx = pm.prepare()
+						if isPrep {
+							prepCtx = pm.prepare()
+						} else {
+							// a machine without PrepareSnapshot: the snapshot is taken now and kept for later
+							prepCtx = ms[0].snapshot()
+						}
 						since = nil
+						refAtPrep = map[string][]byte{}
+						for k, v := range ref {
+							refAtPrep[k] = v
+						}
 						op := J{"op": "prep", "id": 0}
 						ops = append(ops, op)
 						emit(op, "ok")
@@ -331,19 +342,46 @@ func main() {
 					} else if prepCtx != nil && len(since) > 0 && r.Intn(3) == 0 {
 						// the prepared snapshot is saved only now, after further updates, and handed to a fresh replica, which
 						// then applies the updates it missed
-						data, err := pm.saveCtx(prepCtx)
+						var data []byte
+						var err error
+						if isPrep {
+							data, err = pm.saveCtx(prepCtx)
+						} else {
+							data = prepCtx.([]byte)
+						}
 						prepCtx = nil
 						if err != nil {
 							run.Count("c15:inconclusive_snapshot_aborted")
 							emit(J{"op": "unprep", "id": 0}, "ok")
 						} else {
-							c := newMachine(kind)
-							emit(J{"op": "new", "id": 1, "kind": kind}, "ok")
+							// ... handed to a fresh replica, or installed into the used replica 1, which has applied everything since
+							// and has to go back to exactly the snapshot's state
+							// (the on-disk machine refuses by contract - "last applied not moving forward" - a snapshot older than
+							// what it has applied, so it always gets the fresh replica)
+							c := ms[1]
+							if kind == "disk" || r.Intn(2) == 0 {
+								c = newMachine(kind)
+								emit(J{"op": "new", "id": 1, "kind": kind}, "ok")
+							} else {
+								run.Count("c15:snapshot_installed_into_used_replica")
+							}
 							op := J{"op": "snapprep", "id": 0, "to": 1}
 							ops = append(ops, op)
-							c.recover(data)
+							if guard(func() { c.recover(data) }) {
+								emit(op, "panic")
+								fail("snapshot_restores_exactly", "recover-crash", kind+": installing a snapshot crashed the replica")
+								dead = true
+								break
+							}
 							ms[1] = c
 							emit(op, "ok")
+							for _, k := range keys {
+								got := ms[1].lookup(k)
+								emit(J{"op": "lookup", "id": 1, "key": hex.EncodeToString(k)}, hex.EncodeToString(got))
+								if want := refAtPrep[string(k)]; !bytes.Equal(got, want) {
+									fail("snapshot_restores_exactly", "state-after-recover-not-the-snapshot", fmt.Sprintf("%s: right after installing a snapshot, lookup of %q returns %q, the snapshot's state has %q", kind, k, got, want))
+								}
+							}
 							for _, b := range since {
 								uop := J{"op": "update", "id": 1, "idx": b.idx, "cmds": b.hexes, "pooled": true}
 								ops = append(ops, uop)
@@ -369,7 +407,12 @@ func main() {
 					}
 					op := J{"op": "extra", "id": 1, "what": what}
 					ops = append(ops, op)
-					ms[1].extra(what)
+					if guard(func() { ms[1].extra(what) }) {
+						emit(op, "panic")
+						fail("restart_transparent", "crash-on-"+what, kind+": "+what+" crashed the replica")
+						dead = true
+						break
+					}
 					emit(op, "ok")
 					run.Count("c15:extra_" + what)
 				}
